@@ -1179,6 +1179,13 @@ ok:
         ssl->resendMsn = ssl->msn;
         ssl->resendEpoch[0] = ssl->epoch[0];
         ssl->resendEpoch[1] = ssl->epoch[1];
+        if (!ssl->retransmit)
+        {
+            /* Remember how far the peer had got when this flight was built:
+               a duplicate is only a reason to resend the flight as long as
+               nothing newer has been received from the peer since. */
+            ssl->flightLastMsn = ssl->lastMsn;
+        }
     }
 # endif /* USE_DTLS */
 
